@@ -1326,7 +1326,7 @@ class RawAlgorithmsMixIn:
         (xbar_data, ybar_data) = out
 
         xbar_data += cls._dot(zbar_data, y_data, out = xbar_data.copy())
-        ybar_data += cls._dot(zbar_data, x_data, out = ybar_data.copy())
+        ybar_data += cls._dot(cls._transpose(zbar_data), x_data, out = ybar_data.copy())
 
         return out
 
